@@ -999,6 +999,15 @@ static carquet_status_t load_next_page_mmap(
             free(reader->decoded_rep_levels);
             reader->decoded_def_levels = malloc(sizeof(int16_t) * num_values);
             reader->decoded_rep_levels = malloc(sizeof(int16_t) * num_values);
+            if (!reader->decoded_def_levels || !reader->decoded_rep_levels) {
+                free(reader->decoded_def_levels);
+                free(reader->decoded_rep_levels);
+                reader->decoded_def_levels = NULL;
+                reader->decoded_rep_levels = NULL;
+                reader->decoded_capacity = 0;
+                CARQUET_SET_ERROR(error, CARQUET_ERROR_OUT_OF_MEMORY, "Failed to allocate level buffers");
+                return CARQUET_ERROR_OUT_OF_MEMORY;
+            }
             reader->decoded_capacity = num_values;
         }
 
